@@ -85,21 +85,46 @@ def _run_job(job, scale):
 
 
 def run_pool(jobs, scale=1, nproc=NPROC, progress=True):
+    """runs the jobs on a process pool; survives the death of a worker (solver crash, out of memory): the jobs that
+    were lost are re-run one per fresh process and the one that kills its worker is reported as a checker error"""
+    from concurrent.futures.process import BrokenProcessPool
+
     out = {}
     t0 = time.time()
-    with ProcessPoolExecutor(max_workers=nproc) as ex:
-        futs = {ex.submit(_run_job, j, scale): j for j in jobs}
-        done = 0
-        for fu in as_completed(futs):
-            j = futs[fu]
-            try:
-                r = fu.result()
-            except Exception:
-                r = {"job": j["id"], "obs": [], "seconds": 0, "error": traceback.format_exc()[-2000:]}
-            out[j["id"]] = r
-            done += 1
-            if progress and (done % 50 == 0 or done == len(jobs)):
-                print(f"  [{done}/{len(jobs)} jobs, {time.time() - t0:.0f}s]", flush=True)
+    pending = list(jobs)
+    workers = nproc
+    while pending:
+        broken = False
+        ex = ProcessPoolExecutor(max_workers=max(1, workers))
+        futs = {ex.submit(_run_job, j, scale): j for j in pending}
+        try:
+            for fu in as_completed(futs):
+                j = futs[fu]
+                try:
+                    r = fu.result()
+                except BrokenProcessPool:
+                    broken = True
+                    continue
+                except Exception:
+                    r = {"job": j["id"], "obs": [], "seconds": 0, "error": traceback.format_exc()[-2000:]}
+                out[j["id"]] = r
+                if progress and (len(out) % 50 == 0 or len(out) == len(jobs)):
+                    print(f"  [{len(out)}/{len(jobs)} jobs, {time.time() - t0:.0f}s]", flush=True)
+        finally:
+            ex.shutdown(wait=True, cancel_futures=True)
+        pending = [j for j in pending if j["id"] not in out]
+        if pending and broken:
+            if workers == 1:
+                # the first pending job killed its private worker
+                j = pending.pop(0)
+                out[j["id"]] = {"job": j["id"], "obs": [], "seconds": 0, "error": "worker process died while running this job (crash or out of memory)"}
+            else:
+                print(f"  worker died; re-running {len(pending)} jobs one per process", flush=True)
+                workers = 1
+        elif pending:
+            break
+    for j in jobs:
+        out.setdefault(j["id"], {"job": j["id"], "obs": [], "seconds": 0, "error": "job lost"})
     return [out[j["id"]] for j in jobs]
 
 
